@@ -160,6 +160,10 @@ func runC12(r *Run, p *Prog) {
 		for _, w := range ro.WSites {
 			wsite[w.Instr] = true
 		}
+		ctx := map[*ssa.Function]bool{f: true}
+		for g := range chain {
+			ctx[g] = true
+		}
 		n := 0
 		for g := range chain {
 			n++
@@ -175,7 +179,9 @@ func runC12(r *Run, p *Prog) {
 				}
 				return false
 			}
-			reach, w := reachInstr(g, nil, isReturn, delivers, func(a, b *ssa.BasicBlock) bool { return allowed(T.edgeFactsOn(a, b)) })
+			reach, w := reachInstr(g, nil, isReturn, delivers, func(a, b *ssa.BasicBlock) bool {
+				return allowed(T.edgeFactsOn(a, b)) || encodeErrorEdge(p, cg, wfn, a, b) || zeroFieldEdgeInContext(cg, g, a, b, ctx)
+			})
 			r.Ob("X1", shortName(g), "the write path below ReplyError gives up only for a oneway call or a marshal error", g.Pos(), !reach,
 				"a function between ReplyError and the connection write can return without writing for another reason: error replies with a valid name are refused in some call states", witnessPos(p, w)...)
 		}
